@@ -8,6 +8,7 @@ CONSTANTS
   MaxFrames = 3
   TimeoutQ = 2
   Timed = TRUE
+  Acts = {"M","E","D","U","R","C","T"}
   Legacy = {}
   MaxHist = 0
 VIEW view
